@@ -18,7 +18,7 @@ from harness.props import c01
 
 PROPERTY = "C14"
 ENGINE = "c01"
-REQUIRED_THEOREMS = ['shunt_errors_are_syntax', 'eval_plain_no_internal', 'pySyntax_only_from_fragment']
+REQUIRED_THEOREMS = ["shunt_errors_are_syntax", "eval_plain_no_internal", "pySyntax_only_from_fragment", "disabled_never_used"]
 TRUSTED = list(c01.TRUSTED)
 ASSUMPTIONS = [
     "strings whose exponent literal has two or more digits are excluded from the random streams (x**11 is valid and takes 2^11.. steps)",
